@@ -54,6 +54,11 @@ module Coq__1 = struct
 end
 include Coq__1
 
+(** val eqb : bool -> bool -> bool **)
+
+let eqb b1 b2 =
+  if b1 then b2 else if b2 then false else true
+
 module Nat =
  struct
   (** val eqb : nat -> nat -> bool **)
@@ -137,6 +142,12 @@ let rec fold_left f l a0 =
   match l with
   | [] -> a0
   | b :: t -> fold_left f t (f a0 b)
+
+(** val existsb : ('a1 -> bool) -> 'a1 list -> bool **)
+
+let rec existsb f = function
+| [] -> false
+| a :: l0 -> (||) (f a) (existsb f l0)
 
 (** val firstn : nat -> 'a1 list -> 'a1 list **)
 
@@ -1718,3 +1729,110 @@ let db_scan_range d a b halt =
 let db_scan_from_pinned d k fwd =
   bind (it_seek_pinned d.root k fwd) (fun r ->
     scan_loop (scan_fuel d.root) fwd (fun _ -> false) None (fst r) [])
+
+type tid = nat
+
+(** val w_is_free : z -> bool **)
+
+let w_is_free v =
+  Z.eqb (Z.modulo v (Zpos (XO (XO XH)))) Z0
+
+(** val w_set_locked : z -> z **)
+
+let w_set_locked v =
+  Z.add v (Zpos (XO XH))
+
+(** val w_obsolete : z **)
+
+let w_obsolete =
+  Zpos XH
+
+type event =
+| ERLock of tid * z
+| ESpin of tid
+| ECheck of tid * z * z
+| EUpgrade of tid * z * bool
+| EWUnlock of tid * z
+| EWObsolete of tid
+| EStore of tid * nat * z
+| ELoad of tid * nat * z
+
+type lstate = { lw : z; lmem : z list; guards : tid list }
+
+(** val linit : nat -> lstate **)
+
+let linit nwords =
+  { lw = Z0; lmem = (repeat Z0 nwords); guards = [] }
+
+(** val set_nth : nat -> z -> z list -> z list **)
+
+let rec set_nth i x l =
+  match i with
+  | O -> (match l with
+          | [] -> []
+          | _ :: l' -> x :: l')
+  | S i' -> (match l with
+             | [] -> []
+             | y :: l' -> y :: (set_nth i' x l'))
+
+(** val remove_tid : tid -> tid list -> tid list **)
+
+let rec remove_tid t = function
+| [] -> []
+| x :: l' -> if Nat.eqb x t then l' else x :: (remove_tid t l')
+
+(** val holds : lstate -> tid -> bool **)
+
+let holds s t =
+  existsb (Nat.eqb t) s.guards
+
+(** val lstep : lstate -> event -> lstate option **)
+
+let lstep s = function
+| ERLock (_, obs) -> if Z.eqb obs s.lw then Some s else None
+| ESpin _ -> Some s
+| ECheck (_, _, obs) -> if Z.eqb obs s.lw then Some s else None
+| EUpgrade (t, v, ok) ->
+  if negb (w_is_free v)
+  then None
+  else if eqb ok (Z.eqb v s.lw)
+       then if ok
+            then Some { lw = (w_set_locked v); lmem = s.lmem; guards =
+                   (t :: s.guards) }
+            else Some s
+       else None
+| EWUnlock (t, neww) ->
+  if (&&) (holds s t) (Z.eqb neww (Z.add s.lw (Zpos (XO XH))))
+  then Some { lw = neww; lmem = s.lmem; guards = (remove_tid t s.guards) }
+  else None
+| EWObsolete t ->
+  if holds s t
+  then Some { lw = w_obsolete; lmem = s.lmem; guards =
+         (remove_tid t s.guards) }
+  else None
+| EStore (t, i, x) ->
+  if (&&) (holds s t) (Nat.ltb i (length s.lmem))
+  then Some { lw = s.lw; lmem = (set_nth i x s.lmem); guards = s.guards }
+  else None
+| ELoad (_, i, x) ->
+  (match nth_error s.lmem i with
+   | Some y -> if Z.eqb x y then Some s else None
+   | None -> None)
+
+(** val lrun : lstate -> event list -> lstate option **)
+
+let rec lrun s = function
+| [] -> Some s
+| e :: tr' -> (match lstep s e with
+               | Some s' -> lrun s' tr'
+               | None -> None)
+
+(** val lrun_diag : lstate -> event list -> nat -> lstate * nat option **)
+
+let rec lrun_diag s tr i =
+  match tr with
+  | [] -> (s, None)
+  | e :: tr' ->
+    (match lstep s e with
+     | Some s' -> lrun_diag s' tr' (S i)
+     | None -> (s, (Some i)))
